@@ -12,7 +12,10 @@ env = dict(os.environ, CARGO_NET_OFFLINE="true")
 def sh(cmd, **kw):
     return subprocess.run(cmd, cwd=wt, stdout=subprocess.PIPE, stderr=subprocess.STDOUT, text=True, env=env, **kw)
 meta = json.load(open(os.path.join(wt, "MUTANT", "meta.json")))
-feat = ["--features", "glob_fs"] if "glob_fs" in meta.get("how_to_run", "") else []
+# features named in how_to_run (glob_fs for file loading; unicode / no_fmt / fast_escape for changes
+# that live in feature-gated code: the baseline suite cannot see those by construction)
+_named = [f for f in ("glob_fs", "unicode", "no_fmt", "fast_escape", "preserve_order", "fast_hash") if f in meta.get("how_to_run", "")]
+feat = ["--features", ",".join(_named)] if _named else []
 demo_dst = os.path.join(wt, "tera", "tests", "mutant_demo.rs")
 conf = {}
 # the patch on file must be what is applied
@@ -50,7 +53,7 @@ for f in ("patch.diff", "demo.rs"):
     shutil.copy(os.path.join(wt, "MUTANT", f), os.path.join(dst, f))
 meta["confirmed_by_me"] = conf
 meta["what_i_ran"] = ["cargo test --workspace --no-fail-fast --offline (with change)", "cargo test -p tera --offline --features glob_fs (with change)",
-                      "cargo test -p tera --offline --test mutant_demo (with change: must fail; after git stash: must pass)",
+                      "cargo test -p tera --offline --test mutant_demo (with change: must fail; after git apply -R: must pass)",
                       "tools/run_mutants.py worktree <wt> %s %s (checks built against the worktree)" % (prop, mid)]
 json.dump(meta, open(os.path.join(dst, "meta.json"), "w"), indent=1, sort_keys=True)
 res.pop("worktree", None)
